@@ -333,6 +333,11 @@ open Lean Elab Command in
             if k.get("status") != "open" or self.prop not in k["properties"]:
                 continue
             m = k["match"]
+            if "ops" in m:
+                # a class given by the operation and one literal operand (e.g. the integer i128::MIN in a division)
+                if t[1] in m["ops"] and m["token"] in t[2:]:
+                    return k
+                continue
             if t[1] != m["op"]:
                 continue
             nn = int(t[m["n_index"]])
@@ -513,9 +518,18 @@ fpdec = {{ path = "{REPO}" }}
 """)
     shutil.copy(REPO / "Cargo.lock" if (REPO / "Cargo.lock").exists() else HARNESS / "Cargo.lock", crate / "Cargo.lock")
 
+    # signed literals are also written the way a formatter / another macro may hand them over: sign and number as two tokens with
+    # white space or a comment in between (`Dec!(- 17.5)`); the value must be that of the unspaced text
+    seps = {}
+    for idx, l in enumerate(lits):
+        if l and l[0] in "+-" and len(l) > 1 and g.r.random() < 0.35:
+            seps[idx] = g.r.choice([" ", " ", "  ", " /* sign */ ", "\t"])
+
     def write_prog(items):
         body = ["use fpdec::{Dec, Decimal};", "fn main() {"]
         for idx, lit in items:
+            if idx in seps:
+                lit = lit[0] + seps[idx] + lit[1:]
             body.append(f"    {{ let d: Decimal = Dec!({lit}); println!(\"{idx} {{}} {{}}\", d.coefficient(), d.n_frac_digits()); }}")
         body.append("}")
         (crate / "src/main.rs").write_text("\n".join(body) + "\n")
@@ -583,6 +597,7 @@ fpdec = {{ path = "{REPO}" }}
         mi += k
     run.samples += [f"Dec!({l}) -> {macro_out.get(i, 'reject')}" for i, l in items[:8]]
     run.extra["literals"] = len(lits)
+    run.extra["literals_with_separated_sign"] = len(seps)
     run.extra["literals_rejected_by_rustc"] = len(rejected)
     run.assumptions.append("rustc's lexer and TokenStream::to_string are exercised, not modelled")
 
@@ -646,7 +661,11 @@ def run_check(prop, tier, seed):
                 continue
             for req, a, b in zip(lines, outputs[base], impl):
                 if a != b:
-                    run.violations.append(("impl∉spec", req, f"{prof}: {b}", f"same as {base}: {a}", prof))
+                    kf = run.known(req, b)
+                    if kf:
+                        run.known_hits[kf["id"]] = run.known_hits.get(kf["id"], 0) + 1
+                    else:
+                        run.violations.append(("impl∉spec", req, f"{prof}: {b}", f"same as {base}: {a}", prof))
     for feats in cfg.get("feature_runs", ([], []))[ti]:
         exe = run.cargo_build("dev", feats)
         if exe is None:
